@@ -199,6 +199,11 @@ func runC16(t *testing.T, c RoCase) *kit.Result {
 								ops[0], ops[1] = ops[1], ops[0]
 							}
 							fld.Set(reflect.ValueOf(ops[:1+arg%3]))
+						default:
+							// options the check knows nothing about (Compact's force flag, ...)
+							if fld.Kind() == reflect.Bool {
+								fld.SetBool(arg%2 == 0)
+							}
 						}
 					}
 					args = append(args, req)
